@@ -45,7 +45,7 @@ Fresh(id, fam, viol, cov) ==
    shown |-> "", shownMsvc |-> FALSE, lastFin |-> 0, lastReads |-> <<>>, lastHasDep |-> FALSE,
    prevOK |-> FALSE, prevTargets |-> <<>>, prevFile |-> "", changed |-> TRUE, repeat |-> FALSE,
    inInv |-> FALSE, errSeen |-> FALSE, lastOk |-> FALSE, p1names |-> {},
-   xpl |-> NoXpl, locs |-> <<>>, lastSum |-> <<"none", 0>>, crashed |-> FALSE,
+   xpl |-> NoXpl, locs |-> <<>>, lastSum |-> <<"none", 0>>, crashed |-> FALSE, logBytes |-> 0,
    viol |-> viol, cov |-> cov]
 
 Init == l = 1 /\ w = Fresh("", "", {}, Cov0)
@@ -358,13 +358,18 @@ DoDbw(ev) ==
                    \cup Lbl({"CONF"}, "explain", (w.inv.adopt /\ w.inv.explain) => XplReasonOK(g, s, w.xpl)))
       cov == BumpIf(BumpIf(BumpIf(Bump(w.cov, "dbw"), "adoptRec", isBuild /\ w.inv.adopt),
                 "discRec", isBuild /\ ev.deps # <<>>), "crash", "kept" \in DOMAIN ev)
-  IN IF w.bad \/ ~isBuild THEN [w EXCEPT !.cov = cov, !.crashed = @ \/ ("kept" \in DOMAIN ev)]
-     ELSE IF s = 0 THEN [w EXCEPT !.viol = @ \cup v, !.cov = cov, !.crashed = @ \/ ("kept" \in DOMAIN ev)]
+      \* bytes of this write that belong to the log for good (a torn write contributes nothing;
+      \* when n2 died before the 8-byte signature was complete the next invocation starts the log over)
+      nb == LET lb == w.logBytes + (IF torn THEN 0 ELSE ev.len)
+            IN IF "kept" \in DOMAIN ev /\ lb < 8 THEN 0 - w.logBytes ELSE lb - w.logBytes
+  IN IF w.bad \/ ~isBuild THEN [w EXCEPT !.cov = cov, !.crashed = @ \/ ("kept" \in DOMAIN ev), !.logBytes = @ + nb]
+     ELSE IF s = 0 THEN [w EXCEPT !.viol = @ \cup v, !.cov = cov, !.crashed = @ \/ ("kept" \in DOMAIN ev),
+                                  !.logBytes = @ + nb]
      ELSE [w EXCEPT !.log = IF torn THEN @ ELSE Append(@, rec),
                     !.cur = IF torn THEN @ ELSE (s :> rec) @@ @,
                     !.pend = IF w.pend.s = s THEN NoPend ELSE @,
                     !.xpl = IF w.inv.adopt /\ w.inv.explain THEN [@ EXCEPT !.kind = "used"] ELSE @,
-                    !.crashed = @ \/ ("kept" \in DOMAIN ev),
+                    !.crashed = @ \/ ("kept" \in DOMAIN ev), !.logBytes = @ + nb,
                     !.viol = @ \cup v, !.cov = cov]
 
 DoPu(ev) ==
@@ -482,9 +487,13 @@ DoEnd(ev) ==
                   (loaded /\ "dbat" \in DOMAIN ev) =>
                      Range(ev.dbat) = {IF bdir = "" THEN ".n2_db" ELSE bdir \o "/.n2_db"})
       \* -C: n2 works in the named directory (and everything else is as if started there)
+      \* the log on disk is exactly the writes that reached it completely: nothing of a torn write
+      \* survives a later invocation (a sufficient condition for C07, hence only CONF)
+      vsize == Lbl({"CONF"}, "log-size",
+                   (loaded /\ "dbsize" \in DOMAIN ev /\ ev.dbsize >= 0 /\ ~w.bad) => ev.dbsize = w.logBytes)
       vcwd == Lbl({"C18"}, "chdir", (loaded /\ "cwd" \in DOMAIN ev) => ev.cwd = w.inv.cdir)
       vdead == Lbl({"C06"}, "hang", ev.dead \notin {"hang", "livelock"})
-  IN [w EXCEPT !.viol = IF dead THEN @ \cup vdead ELSE @ \cup v \cup vexit \cup vlog \cup vcwd,
+  IN [w EXCEPT !.viol = IF dead THEN @ \cup vdead ELSE @ \cup v \cup vexit \cup vlog \cup vcwd \cup vsize,
                !.cov = IF dead THEN @ ELSE cov,
                !.inInv = FALSE, !.lastOk = (~dead /\ ok),
                !.lastSum = <<ev.summary, IF ev.summary = "ran" THEN ev.n ELSE 0>>,
